@@ -71,9 +71,11 @@ func fnInfo(ctx *cmdContext, args map[string]any) (output respValue, err error) 
 	uptime := time.Since(started)
 
 	// work on a copy of the statistics taken under their lock
+	simBeforeLock(&infoMu, "infoMu")
 	infoMu.Lock()
 	info := info
 	infoMu.Unlock()
+	simAfterUnlock(&infoMu, "infoMu")
 
 	data := map[string]any{}
 	data["run_id"] = info.run_id
